@@ -164,6 +164,9 @@ def parse_unit(path):
                 (m.group(1), _unq(m.group(2)), _unq(m.group(3)), exp))
             last = None
             continue
+        if word == "header":
+            d.header_rewrite = rest
+            continue
         if word == "rename":
             a, b = rest.split()
             d.renames.append((a, b))
@@ -477,7 +480,7 @@ def expand_extract(d, log, meta, unit_path):
     if len(cands) > 1 and len(top) >= 1:
         cands = top
     meta["items"].append(dict(path=d.path, item=d.item))
-    if kw != "impl":
+    if kw != "impl" and not (kw == "trait" and d.fns):
         if len(cands) != 1:
             raise ExtractError("%s: item `%s` is ambiguous (%d)" % (d.path, d.item, len(cands)))
         s, e, ki, _dp = cands[0]
